@@ -12,7 +12,7 @@ Local Open Scope Z_scope.
 Section Main.
   Variable intersects contains : Z -> bool.
   Variable bound : list Z.
-  Variable fallback : list Z -> option (list Z).
+  Variable fallback : coverer -> list Z -> option (list Z).
   Variable pts : Z -> Prop.
 
   (** every region leaf lies in a cell of the region's CellUnionBound, which consists of valid cells *)
@@ -21,13 +21,14 @@ Section Main.
 
   Notation SoundI := (SoundI intersects pts).
   Notation SoundC := (SoundC contains pts).
-  Notation FallbackOK := (FallbackOK fallback).
+  Notation FallbackSound := (FallbackSound fallback).
+  Notation FallbackTotal := (FallbackTotal fallback).
 
   Section WithCv.
   Variable cv : coverer.
   Hypothesis Hwf : wf_cv cv.
   Hypothesis HVB : ValidB.
-  Hypothesis HFB : FallbackOK.
+  Hypothesis HFS : FallbackSound.
 
   Notation newCand := (newCandidate intersects contains cv).
   Notation addCand := (addCandidate intersects contains cv).
@@ -146,7 +147,7 @@ Section Main.
   Qed.
 
   (** ** coveringInternal *)
-  Lemma coveringInternal_spec :
+  Lemma coveringInternal_core : forall cells0, FastCovering bound fallback temp_opts = Some cells0 ->
     exists cells raw,
       coveringInternal intersects contains bound fallback cv = Some (post raw) /\
       all_valid cells /\ (forall x, is_leaf x -> covered bound x -> covered cells x) /\
@@ -155,12 +156,13 @@ Section Main.
       (SoundI -> interior cv = false -> forall x, is_leaf x -> pts x -> covered cells x -> covered raw x) /\
       (interior cv = true -> Forall (fun c => contains c = true) raw).
   Proof.
-    unfold coveringInternal, initialCandidates. fold temp_opts.
-    destruct (FastCovering_spec bound fallback temp_opts HFB HVB) as (cells0 & E0 & V0 & C0 & L0).
+    intros cells0 E0. unfold coveringInternal, initialCandidates. fold temp_opts.
+    destruct (FastCovering_sound bound fallback temp_opts cells0 HFS HVB E0) as (V0 & C0 & L0).
     rewrite E0.
     set (cells := adjustCellLevels cv cells0).
     assert (Hlev0 : forall o, In o cells0 -> s2_CellID_Level o <= Z.max (maxLevel cv) (minLevel cv)).
-    { intros o Ho. specialize (L0 o Ho). unfold newCoverer, temp_opts in L0. cbn [minLevel maxLevel] in L0.
+    { intros o Ho. rewrite Forall_forall in L0. specialize (L0 o Ho). unfold cv_good, good_level, newCoverer, temp_opts in L0.
+      cbn [minLevel maxLevel] in L0.
       unfold clampMinLevel, clampMaxLevel in L0. cbn [o_MinLevel o_MaxLevel] in L0.
       rewrite !minInt1, !maxInt1 in L0. destruct Hwf as (Hmin & Hmax & Hmod). lia. }
     destruct (adjustCellLevels_spec cv Hwf cells0 V0 Hlev0) as (V1 & C1 & L1).
@@ -204,6 +206,30 @@ Section Main.
       rewrite Eloop in Hcn. apply Hcn. split; [exact Hwf0|].
       apply init_fold_contained; auto. constructor.
   Qed.
+
+  Lemma coveringInternal_sound : forall res,
+    coveringInternal intersects contains bound fallback cv = Some res ->
+    exists cells raw,
+      res = post raw /\
+      all_valid cells /\ (forall x, is_leaf x -> covered bound x -> covered cells x) /\
+      all_valid raw /\
+      Forall (fun c => forall L, valid_at c L -> lvl_ok cv L /\ minLevel cv <= L) raw /\
+      (SoundI -> interior cv = false -> forall x, is_leaf x -> pts x -> covered cells x -> covered raw x) /\
+      (interior cv = true -> Forall (fun c => contains c = true) raw).
+  Proof.
+    intros res Hres.
+    destruct (FastCovering bound fallback temp_opts) as [cells0|] eqn:E0.
+    - destruct (coveringInternal_core cells0 E0) as (cells & raw & E & H).
+      exists cells, raw. split; [congruence|exact H].
+    - unfold coveringInternal, initialCandidates in Hres. fold temp_opts in Hres. rewrite E0 in Hres. discriminate.
+  Qed.
+
+  Lemma coveringInternal_total : FallbackTotal ->
+    exists res, coveringInternal intersects contains bound fallback cv = Some res.
+  Proof.
+    intros HFT. destruct (FastCovering_total bound fallback temp_opts HFT HVB) as (cells0 & E0).
+    destruct (coveringInternal_core cells0 E0) as (cells & raw & E & _). eauto.
+  Qed.
   End WithCv.
 
   (** * The four entry points *)
@@ -216,7 +242,7 @@ Section Main.
   Section Results.
   Variable rc : opts.
   Hypothesis HVB : ValidB.
-  Hypothesis HFB : FallbackOK.
+  Hypothesis HFS : FallbackSound.
 
   Notation minL := (clampMinLevel rc).
   Notation maxL := (clampMaxLevel rc).
@@ -226,20 +252,21 @@ Section Main.
   Proof. exact (newCoverer_wf rc false). Qed.
 
   (** Covering = Denormalize (Normalize (post raw)) *)
-  Lemma Covering_shape : forall inter,
+  Lemma Covering_shape : forall inter r,
+    option_map (cu_Denormalize minL md) (option_map cu_Normalize
+        (coveringInternal intersects contains bound fallback (newCoverer rc inter))) = Some r ->
     exists raw,
-      option_map (cu_Denormalize minL md) (option_map cu_Normalize
-        (coveringInternal intersects contains bound fallback (newCoverer rc inter))) =
-      Some (cu_Denormalize minL md (cu_Normalize (post (newCoverer rc inter) raw))) /\
+      r = cu_Denormalize minL md (cu_Normalize (post (newCoverer rc inter) raw)) /\
       all_valid raw /\
       Forall (fun c => forall L, valid_at c L -> lvl_ok (newCoverer rc inter) L /\ minL <= L) raw /\
       (SoundI -> inter = false -> forall x, is_leaf x -> pts x -> covered bound x -> covered raw x) /\
       (inter = true -> Forall (fun c => contains c = true) raw).
   Proof.
-    intros inter.
-    destruct (coveringInternal_spec (newCoverer rc inter) (newCoverer_wf rc inter) HVB HFB)
+    intros inter r Hr.
+    destruct (coveringInternal intersects contains bound fallback (newCoverer rc inter)) as [res|] eqn:Eres; [|discriminate].
+    destruct (coveringInternal_sound (newCoverer rc inter) (newCoverer_wf rc inter) HVB HFS res Eres)
       as (cells & raw & E & Vc & Cc & Vr & Lr & Cov & Cont).
-    exists raw. rewrite E. cbn [option_map]. split; [reflexivity|].
+    exists raw. cbn [option_map] in Hr. split; [congruence|].
     split; [exact Vr|]. split; [exact Lr|]. split.
     - intros HI Hi x Hx Hp Hb. apply Cov; auto.
     - intros Hi. apply Cont. exact Hi.
@@ -250,7 +277,7 @@ Section Main.
     forall x, is_leaf x -> pts x -> covered r x.
   Proof.
     intros HI HB r Hr x Hx Hp. unfold Covering, CellUnion in Hr.
-    destruct (Covering_shape false) as (raw & E & Vr & _ & Cov & _). rewrite E in Hr. injection Hr as <-.
+    destruct (Covering_shape false r Hr) as (raw & -> & Vr & _ & Cov & _).
     destruct clamp_bounds as (Hmin & Hmax & Hmd).
     pose proof (post_valid (newCoverer rc false) (newCoverer_wf rc false) raw Vr) as Vp.
     apply denormalize_covers; auto; [apply normalize_valid; exact Vp|].
@@ -263,9 +290,10 @@ Section Main.
     forall x, is_leaf x -> pts x -> covered r x.
   Proof.
     intros HI HB r Hr x Hx Hp. unfold CellUnion in Hr.
-    destruct (coveringInternal_spec (newCoverer rc false) (newCoverer_wf rc false) HVB HFB)
-      as (cells & raw & E & Vc & Cc & Vr & Lr & Cov & Cont).
-    rewrite E in Hr. injection Hr as <-.
+    destruct (coveringInternal intersects contains bound fallback (newCoverer rc false)) as [res|] eqn:Eres; [|discriminate].
+    destruct (coveringInternal_sound (newCoverer rc false) (newCoverer_wf rc false) HVB HFS res Eres)
+      as (cells & raw & -> & Vc & Cc & Vr & Lr & Cov & Cont).
+    cbn [option_map] in Hr. injection Hr as <-.
     pose proof (post_valid (newCoverer rc false) (newCoverer_wf rc false) raw Vr) as Vp.
     apply normalize_covers; [exact Vp|].
     apply (post_covers _ (newCoverer_wf rc false) raw x Vr Hx). apply Cov; auto.
@@ -276,7 +304,7 @@ Section Main.
     forall c, In c r -> forall x, is_leaf x -> leaf_in x c -> pts x.
   Proof.
     intros HC r Hr c Hc x Hx Hxc. unfold InteriorCovering, InteriorCellUnion in Hr.
-    destruct (Covering_shape true) as (raw & E & Vr & _ & _ & Cont). rewrite E in Hr. injection Hr as <-.
+    destruct (Covering_shape true r Hr) as (raw & -> & Vr & _ & _ & Cont).
     destruct clamp_bounds as (Hmin & Hmax & Hmd).
     pose proof (post_valid (newCoverer rc true) (newCoverer_wf rc true) raw Vr) as Vp.
     assert (Hcov : covered raw x).
@@ -293,9 +321,10 @@ Section Main.
     forall c, In c r -> forall x, is_leaf x -> leaf_in x c -> pts x.
   Proof.
     intros HC r Hr c Hc x Hx Hxc. unfold InteriorCellUnion in Hr.
-    destruct (coveringInternal_spec (newCoverer rc true) (newCoverer_wf rc true) HVB HFB)
-      as (cells & raw & E & Vc & Cc & Vr & Lr & Cov & Cont).
-    rewrite E in Hr. injection Hr as <-.
+    destruct (coveringInternal intersects contains bound fallback (newCoverer rc true)) as [res|] eqn:Eres; [|discriminate].
+    destruct (coveringInternal_sound (newCoverer rc true) (newCoverer_wf rc true) HVB HFS res Eres)
+      as (cells & raw & -> & Vc & Cc & Vr & Lr & Cov & Cont).
+    cbn [option_map] in Hr. injection Hr as <-.
     pose proof (post_valid (newCoverer rc true) (newCoverer_wf rc true) raw Vr) as Vp.
     assert (Hcov : covered raw x).
     { apply (post_sub (newCoverer rc true) (newCoverer_wf rc true) raw x Vr Hx).
@@ -314,8 +343,7 @@ Section Main.
         (coveringInternal intersects contains bound fallback (newCoverer rc inter))) = Some r ->
     Forall level_ok r.
   Proof.
-    intros inter r Hr. destruct (Covering_shape inter) as (raw & E & Vr & Lr & _ & _).
-    rewrite E in Hr. injection Hr as <-.
+    intros inter r Hr. destruct (Covering_shape inter r Hr) as (raw & -> & Vr & Lr & _ & _).
     destruct clamp_bounds as (Hmin & Hmax & Hmd).
     set (M := Z.max maxL minL). assert (HM : M <= 30) by (unfold M; lia).
     (* "some good level at or above the cell's level" is preserved by every stage *)
@@ -355,16 +383,17 @@ Section Main.
   Proof. intros r [H|H]; [apply (levels_shape false)|apply (levels_shape true)]; exact H. Qed.
 
   (** termination: every entry point returns (the loop's fuel is never exhausted) *)
-  Lemma terminates_lemma :
+  Lemma terminates_lemma : FallbackTotal ->
     (exists r, Covering intersects contains bound fallback rc = Some r) /\
     (exists r, InteriorCovering intersects contains bound fallback rc = Some r) /\
     (exists r, CellUnion intersects contains bound fallback rc = Some r) /\
     (exists r, InteriorCellUnion intersects contains bound fallback rc = Some r) /\
     (exists r, FastCovering bound fallback rc = Some r).
   Proof.
-    destruct (coveringInternal_spec (newCoverer rc false) (newCoverer_wf rc false) HVB HFB) as (c1 & raw1 & E1 & _).
-    destruct (coveringInternal_spec (newCoverer rc true) (newCoverer_wf rc true) HVB HFB) as (c2 & raw2 & E2 & _).
-    destruct (FastCovering_spec bound fallback rc HFB HVB) as (f & Ef & _).
+    intros HFT.
+    destruct (coveringInternal_total (newCoverer rc false) (newCoverer_wf rc false) HVB HFS HFT) as (r1 & E1).
+    destruct (coveringInternal_total (newCoverer rc true) (newCoverer_wf rc true) HVB HFS HFT) as (r2 & E2).
+    destruct (FastCovering_total bound fallback rc HFT HVB) as (f & Ef).
     unfold Covering, InteriorCovering, CellUnion, InteriorCellUnion. rewrite E1, E2. cbn [option_map].
     repeat split; eauto.
   Qed.
@@ -373,30 +402,39 @@ Section Main.
     forall r, FastCovering bound fallback rc = Some r -> forall x, is_leaf x -> pts x -> covered r x.
   Proof.
     intros HB r Hr x Hx Hp.
-    destruct (FastCovering_spec bound fallback rc HFB HVB) as (f & Ef & Vf & Cf & _).
-    rewrite Ef in Hr. injection Hr as <-. apply Cf; auto.
+    destruct (FastCovering_sound bound fallback rc r HFS HVB Hr) as (Vf & Cf & _). apply Cf; auto.
+  Qed.
+
+  (** FastCovering honours the level limits as well *)
+  Lemma fast_levels_ok_lemma : forall r, FastCovering bound fallback rc = Some r -> Forall level_ok r.
+  Proof.
+    intros r Hr. destruct (FastCovering_sound bound fallback rc r HFS HVB Hr) as (Vf & _ & Gf).
+    unfold all_valid in Vf. rewrite Forall_forall in *. intros o Ho. specialize (Gf o Ho).
+    unfold cv_good, good_level, newCoverer in Gf. cbn [minLevel maxLevel levelMod] in Gf.
+    unfold level_ok. split; [apply Vf; exact Ho|]. lia.
   Qed.
   End Results.
 End Main.
 
-(** the premises of the theorems are satisfiable *)
+(** the premises of the partial-correctness theorems are satisfiable *)
 Lemma hyps_example :
   let face0 := s2_CellIDFromFace 0 in
   let pts := fun x => leaf_in x face0 in
-  ValidB [face0] /\ FallbackOK (fun l => Some l) /\ SoundB [face0] pts.
+  ValidB [face0] /\ FallbackSound (fun _ _ => None) /\ SoundB [face0] pts.
 Proof.
   cbv zeta. split; [|split].
   - constructor; [|constructor]. exists 0. unfold valid_at. repeat split; try lia; vm_compute; reflexivity.
-  - intros l Vl. exists l. split; [reflexivity|]. split; [exact Vl|]. split; [auto|].
-    intros o Ho. exists o. split; [exact Ho|lia].
+  - intros cv l r _ _ _ H. discriminate.
   - intros x Hx Hp. exists (s2_CellIDFromFace 0). split; [left; reflexivity|exact Hp].
 Qed.
 
-(** FINDING (unchanged /repo): FastCovering does not honour MinLevel / LevelMod when
-    normalizeCovering takes its "very large covering" branch, which covers with
-    NewRegionCoverer() defaults.  Witness observed on the implementation (cap of radius 6.96e-6,
-    RegionCoverer{10, 24, 3, -2600}) and replayed here on the model: the bound's four level-16 cells
-    come back as their level-15 parent, and (15 - 10) mod 3 = 2. *)
+(** FINDING on /repo before 81ed250 (now repaired): FastCovering did not honour MinLevel / LevelMod when
+    normalizeCovering took its "very large covering" branch, which covered with
+    NewRegionCoverer() defaults.  [cu_fallback_old] is that old branch.  Witness observed on the old
+    implementation (cap of radius 6.96e-6, RegionCoverer{10, 24, 3, -2600}) and replayed on the old model:
+    the bound's four level-16 cells come back as their level-15 parent, and (15 - 10) mod 3 = 2. *)
+Definition cu_fallback_old (cubound : list Z -> list Z) (_ : coverer) (cu : list Z) : option (list Z) :=
+  Covering (cu_IntersectsCellID cu) (cu_ContainsCellID cu) (cubound cu) (fun _ _ => None) default_opts.
 Definition refute_bound : list Z :=
   [12776500542427889664; 12776500541891018752; 12776500540817276928; 12776500541354147840].
 Definition refute_cubound : list Z :=
@@ -409,7 +447,7 @@ Proof. intros c L H. unfold valid_at. lia. Qed.
 
 Lemma fast_levels_refuted_lemma :
   ValidB refute_bound /\ all_valid refute_cubound /\
-  exists r c, FastCovering refute_bound (cu_fallback (fun _ => refute_cubound)) refute_opts = Some r /\
+  exists r c, FastCovering refute_bound (cu_fallback_old (fun _ => refute_cubound)) refute_opts = Some r /\
     In c r /\ valid c /\ (s2_CellID_Level c - clampMinLevel refute_opts) mod clampLevelMod refute_opts <> 0.
 Proof.
   split; [|split].
